@@ -34,13 +34,15 @@ Diag == "DIAG" \in DOMAIN IOEnv /\ IOEnv.DIAG = "1"
 
 VARIABLES l,
           slotOf,   \* bin-array slot (address renamed 1,2,..) -> <<table, index>> it was seen to be (<<0,0>> = not yet)
-          tntOf     \* address of a table's own next_table field -> that table (0 = not yet)
-tvars == <<vars, l, slotOf, tntOf>>
+          tntOf,    \* address of a table's own next_table field -> that table (0 = not yet)
+          taken     \* labels (pc values) of the specification actions replayed so far (reported for coverage)
+tvars == <<vars, l, slotOf, tntOf, taken>>
 
 \* the bin (table, index) an action of thread t reads or writes, if any
 BinOf(t) ==
   LET p == pc[t]  lc == loc[t] IN
   CASE p \in {"LoadBin", "PutCas"} -> <<lc.tb, BinI(lc.tb, CurOp(t).k)>>
+    [] p = "RtLoadBin" -> <<lc.tb, BinI(lc.tb, lc.rk)>>
     [] p \in {"XLoadBin", "XCasFwd", "XStoreFwd"} -> <<lc.xt, lc.i>>
     [] p = "XStoreLo" -> <<lc.nt, lc.i>>
     [] p = "XStoreHi" -> <<lc.nt, lc.i + lc.n>>
@@ -61,12 +63,19 @@ Class(t) ==
     [] p \in {"InitCasSc", "AcCasJoin", "AcCasStart", "HCasJoin", "XCasLeave"} -> "cas_sc"
     [] p = "InitStoreTable" -> "st_table"
     [] p \in {"InitStoreSc", "XStoreSc"} -> "st_sc"
-    [] p \in {"LoadBin", "XLoadBin"} -> "ld_b"
+    [] p \in {"LoadBin", "XLoadBin", "RtLoadBin"} -> "ld_b"
+    [] p = "RtLoadTable" -> "ld_table"
+    [] p = "RtReval" ->
+         LET k == lc.rk  tb == lc.tb  i == BinI(tb, k) IN
+         IF tabs[tb].bins[i] # lc.b THEN "unlock"
+         ELSE LET f == FindIn(lc.b, NULL, k, 0) IN
+              IF f[1] = NULL \/ (CurOp(t).op = "retain" /\ RETAINCHECK /\ node[f[1]].val # lc.ov) THEN "unlock"
+              ELSE IF f[2] = NULL THEN "st_b" ELSE "st_n"
     [] p \in {"GetFwd", "HLoadNt", "ItDescend"} -> "ld_tnt"
     [] p \in {"PutCas", "XCasFwd"} -> "cas_b"
     [] p \in {"TiFast", "LoadVal", "ItYield"} -> "ld_val"
     [] p = "Walk" -> IF lc.p = NULL \/ node[lc.p].key = CurOp(t).k THEN "local" ELSE "ld_n"
-    [] p \in {"Lock", "XLock", "ClrLock"} -> "lock"
+    [] p \in {"Lock", "XLock", "ClrLock", "RtLock"} -> "lock"
     [] p = "Reval" ->
          LET o == CurOp(t)  tb == lc.tb  i == BinI(tb, o.k) IN
          IF tabs[tb].bins[i] # lc.b THEN "unlock"
@@ -135,26 +144,27 @@ TntOk(e, t) ==
        /\ \A s2 \in DOMAIN tntOf : s2 # e.s => tntOf[s2] # want
        /\ tntOf' = [tntOf EXCEPT ![e.s] = want]
 
-TInit == Init /\ l = 1 /\ slotOf = [i \in 1..Rec.nslots |-> <<0, 0>>] /\ tntOf = [i \in 1..Rec.ntnts |-> 0]
+TInit == Init /\ l = 1 /\ slotOf = [i \in 1..Rec.nslots |-> <<0, 0>>] /\ tntOf = [i \in 1..Rec.ntnts |-> 0] /\ taken = {}
 E == Ev[l]
 TNext ==
   /\ l <= Len(Ev)
   /\ LET t == E.t IN
-     \/ /\ Class(t) = "local" /\ Step(t) /\ UNCHANGED <<l, slotOf, tntOf>>
-     \/ /\ E.c = "ret" /\ pc[t] = "idle" /\ RetOk(E, t) /\ l' = l + 1 /\ UNCHANGED <<vars, slotOf, tntOf>>
+     \/ /\ Class(t) = "local" /\ Step(t) /\ UNCHANGED <<l, slotOf, tntOf>> /\ taken' = taken \cup {pc[t]}
+     \/ /\ E.c = "ret" /\ pc[t] = "idle" /\ RetOk(E, t) /\ l' = l + 1 /\ UNCHANGED <<vars, slotOf, tntOf, taken>>
      \* an unlock the specification folded into the action of the critical section's write
-     \/ /\ E.c = "unlock" /\ Class(t) \notin {"unlock", "local"} /\ l' = l + 1 /\ UNCHANGED <<vars, slotOf, tntOf>>
+     \/ /\ E.c = "unlock" /\ Class(t) \notin {"unlock", "local"} /\ l' = l + 1 /\ UNCHANGED <<vars, slotOf, tntOf, taken>>
      \* get_moved's read of the old table's next_table field where the specification has no step
-     \/ /\ E.c = "ld_tnt" /\ Class(t) \notin {"ld_tnt", "local"} /\ l' = l + 1 /\ UNCHANGED <<vars, slotOf, tntOf>>
+     \/ /\ E.c = "ld_tnt" /\ Class(t) \notin {"ld_tnt", "local"} /\ l' = l + 1 /\ UNCHANGED <<vars, slotOf, tntOf, taken>>
      \/ /\ E.c \notin {"ret"} /\ Class(t) = E.c /\ l' = l + 1 /\ Step(t) /\ Post(E, t)
         /\ IF E.c \in {"ld_b", "cas_b", "st_b"} THEN SlotOk(E, t) ELSE UNCHANGED slotOf
         /\ IF E.c = "ld_tnt" THEN TntOk(E, t) ELSE UNCHANGED tntOf
+        /\ taken' = taken \cup {IF pc[t] = "LoadTable" THEN "LoadTable:" \o CurOp(t).op ELSE pc[t]}
 TSpec == TInit /\ [][TNext]_tvars
 
 Done == l > Len(Ev)
 Report ==
-  /\ Done => PrintT(<<"ACCEPT", Rec.id>>)
+  /\ Done => PrintT(<<"ACCEPT", Rec.id>>) /\ PrintT(<<"TAKEN", taken>>)
   /\ Diag => PrintT(<<"AT", l, IF l <= Len(Ev) THEN <<E.t, E.c, pc[E.t], Class(E.t)>> ELSE <<>>>>)
 \* the replayed states satisfy the specification's invariants (those that do not need a finished run)
-TraceInv == ResizeSafe /\ (Done => (QuiescentOK /\ GhostOK)) /\ IterWeak
+TraceInv == ResizeSafe /\ (Done => (QuiescentOK /\ GhostOK)) /\ IterWeak /\ RetainOK
 =============================================================================
